@@ -30,6 +30,14 @@ def _assume(txt: str) -> None:
         ASSUMED.append(txt)
 
 
+def _freeze(f):
+    """Python evaluates `s.apply(f)` eagerly; our column functions are evaluated lazily, so a closure that reads a frame which
+    is mutated later (e.g. `df.loc[m, c] = df[x].apply(lambda v: df.loc[v, c])`) must see the frame as it was at the call."""
+    if isinstance(f, pyvc.Closure):
+        return pyvc.Closure(f.node, copy.deepcopy(f.env))
+    return f
+
+
 class Universe:
     def __init__(self, name: str, arity: int = 1, parents: Optional[List["Universe"]] = None):
         self.name = f"{name}#{next(_uid)}"
@@ -76,6 +84,8 @@ class SymSeries:
     # -- helpers
     def _other(self, other):
         """returns (val fn, null fn or None) of the other operand aligned with self"""
+        if isinstance(other, Extreme):
+            return (lambda r, _o=other: _o.M), (lambda r, _o=other: z3.Not(_o.nonempty))
         if isinstance(other, SymSeries):
             if other.uni is not self.uni:
                 raise Unsupported("binary operation between series of different universes")
@@ -173,7 +183,7 @@ class SymSeries:
             return self._mk(val, None, "bool")
         if attr == "apply":
             _assume("pandas Series.apply(f): f applied to every element, result aligned with the input rows")
-            f = args[0]
+            f = _freeze(args[0])
             sv, pres = self.col.val, self.present
             # obligations raised inside f (KeyError, IndexError, ...) are obligations for the rows of the series only
             return self._mk(lambda r: ex.call(f, [sv(r)], {}, pc + [pres(r)], env), self.col.null, kwargs.get("_dtype", self.col.dtype))
@@ -268,6 +278,11 @@ class DType:
 class IndexOf:
     def __init__(self, owner):
         self.owner = owner
+
+    def hv_setattr(self, ex, attr, v, pc):
+        if attr in ("names", "name"):
+            return  # naming the index does not change rows, labels or contents
+        raise Unsupported(f"assignment to index.{attr}")
 
     def __deepcopy__(self, memo):
         return self
@@ -375,6 +390,8 @@ class Loc:
 
     def hv_getitem(self, ex, idx, pc):
         df = self.df
+        if isinstance(idx, tuple) and len(idx) == 2 and isinstance(idx[1], str) and not isinstance(idx[0], (SymSeries, slice)) and idx[0] is not ALL:
+            return df.scalar_at_label(ex, idx[0], idx[1], pc)
         if isinstance(idx, tuple) and len(idx) == 2:
             rows, cols = idx
             sub = df.select(rows) if not (isinstance(rows, slice) or rows is Ellipsis or rows is ALL) else df
@@ -448,6 +465,26 @@ class SymDF:
         mv, pres = mask.col.val, self.present
         out = SymDF(self.uni, self.cols, lambda r: z_and(pres(r), pyvc.truth(mv(r))), self.label, self.name + "_sel", self.order)
         return out
+
+    def scalar_at_label(self, ex, label, col: str, pc):
+        """df.loc[label, col] for a scalar label: the value of `col` in the row carrying that label (KeyError obligation)."""
+        _assume("pandas df.loc[label, col] (unique labels): the cell of the row carrying the label; KeyError if there is none")
+        if self.label is None:
+            raise Unsupported("scalar label look-up on a frame with unknown labels")
+        if not hasattr(self, "_label_wit"):
+            k = next(_uid)
+            self._label_wit = [z3.Function(f"lab{k}_w{i}", z3.IntSort(), z3.IntSort()) for i in range(self.uni.arity)]
+            r = self.uni.skolem(f"lw{k}")
+            x = z3.Int(f"lx{k}")
+            lab, pres, wit = self.label, self.present, self._label_wit
+            ex.facts.append(z3.ForAll(list(r), z3.Implies(to_z3(pres(r)), z3.And(to_z3(pres(tuple(f(to_z3(lab(r))) for f in wit))),
+                                                                           *[f(to_z3(lab(r))) == ri for f, ri in zip(wit, r)])),
+                                      patterns=[to_z3(pres(r))] if z3.is_app(to_z3(pres(r))) and False else []))
+            # the instance needed at use sites: for the label looked up, if some row carries it, the witness is that row
+            self._label_wit_axiom = lambda row: z3.Implies(to_z3(pres(row)), z3.And(*[f(to_z3(lab(row))) == ri for f, ri in zip(wit, row)]))
+        w = tuple(f(to_z3(label)) for f in self._label_wit)
+        ex.oblige(f"loc_scalar_keyerror_{col}", pc + list(ex.facts), z3.And(to_z3(self.present(w)), to_z3(self.label(w)) == to_z3(label)), "KeyError absence on df.loc[label, col]")
+        return self.cols[col].val(w)
 
     def select_labels(self, ex, labels: SymSeries) -> "SymDF":
         """df.loc[label_series]: the rows whose label occurs in the series (KeyError obligation for labels not in the frame).
@@ -671,7 +708,7 @@ class SymDF:
             return out
         if attr == "apply" and kwargs.get("axis") == 1:
             _assume("pandas DataFrame.apply(f, axis=1): f applied to every row (a mapping column -> value), result aligned with the rows")
-            f = args[0]
+            f = _freeze(args[0])
             cols, pres = self.cols, self.present
             def val(r):
                 return ex.call(f, [RowView(cols, r)], {}, pc + [pres(r)], env)
